@@ -824,3 +824,13 @@ def c07_m(ctx):
 def c07_n(ctx):
     from .C03 import c03_e
     c03_e(ctx)
+
+
+@obligation('C07-o', 'T2', 'no result buffer takes the dtype of a caller\'s array and then receives '
+            'computed values (shared sweep of C08-l, restricted to the modules this property is '
+            'anchored in; `*_like(x)` and `dtype=x.dtype` allocations)', floor=1,
+            necessary='populations and weights are stored as computed, not truncated to the dtype of an argument (numpy truncates floats silently when they are assigned into an '
+                      'integer array)')
+def c07_dtype(ctx):
+    from .base import inherited_dtype_obligation
+    inherited_dtype_obligation(ctx, ['elfi.methods.inference.samplers', 'elfi.methods.utils'])
